@@ -22,8 +22,10 @@ import (
 )
 
 type input struct {
-	Timeout time.Duration `json:"nat_timeout"`
-	Ops     []udpx.Op     `json:"ops"`
+	Timeout   time.Duration `json:"nat_timeout"`
+	Ops       []udpx.Op     `json:"ops"`
+	Listeners int           `json:"listeners,omitempty"` // UDP listeners of the service (one handler), default 1
+	NoExpiry  bool          `json:"no_expiry,omitempty"` // the history is shorter than the timeout: no association can end
 }
 
 // clientKey: client i always uses key i (so a misdelivered reply cannot be decrypted by accident)
@@ -88,11 +90,47 @@ func ownership(tr *udpx.Trace) []*engine.Finding {
 	return fs
 }
 
+// stable: for histories in which no association can end: every client's datagrams leave from one
+// source, and there are exactly as many outbound sockets as clients that sent an authenticated
+// datagram with an allowed destination.
+func stable(tr *udpx.Trace) []*engine.Finding {
+	var fs []*engine.Finding
+	src := map[int]int{} // client -> server port
+	authed := map[int]bool{}
+	socks := 0
+	for i, st := range tr.Steps {
+		socks += len(st.NewSocks)
+		ops := []udpx.Op{st.Op}
+		if st.Op.K == "P" {
+			ops = st.Op.Par
+		}
+		for _, o := range ops {
+			if o.K == "S" && o.Key >= 0 && o.Mod == "" && o.Raw == nil {
+				authed[o.C] = true
+			}
+		}
+		for _, r := range st.TargetRecv {
+			if len(r.Data) < 2 {
+				continue
+			}
+			c := int(r.Data[0])
+			if p, ok := src[c]; ok && p != r.FromUDP.Port {
+				fs = append(fs, &engine.Finding{Sig: "source-changed", Msg: fmt.Sprintf("step %d: datagrams of client %d left from server port %d and from %d while its association was alive", i, c, p, r.FromUDP.Port)})
+			}
+			src[c] = r.FromUDP.Port
+		}
+	}
+	if socks != len(authed) {
+		fs = append(fs, &engine.Finding{Sig: "association-without-auth", Msg: fmt.Sprintf("%d outbound sockets were opened although only %d client addresses sent an authenticated datagram with an allowed destination", socks, len(authed))})
+	}
+	return fs
+}
+
 func scenario(name string, in input, sequential bool) *engine.Scenario {
 	tr := &udpx.Trace{}
 	sc := &engine.Scenario{Name: name, Opt: vrt.Options{Horizon: udpx.Horizon}}
 	sc.Body = func() {
-		udpx.Run(udpx.Config{Keys: udpx.DefaultKeys(), NatTimeout: in.Timeout}, in.Ops, tr)
+		udpx.Run(udpx.Config{Keys: udpx.DefaultKeys(), NatTimeout: in.Timeout, Listeners: in.Listeners}, in.Ops, tr)
 	}
 	sc.Check = func(x *vrt.Exec) (string, bool, []*engine.Finding) {
 		fs := hk.Generic(x, hk.Opts{})
@@ -114,6 +152,9 @@ func scenario(name string, in input, sequential bool) *engine.Scenario {
 			}
 		}
 		fs = append(fs, ownership(tr)...)
+		if in.NoExpiry {
+			fs = append(fs, stable(tr)...)
+		}
 		for _, st := range tr.Steps {
 			obs += fmt.Sprintf("%s:%d/%d/%d;", st.Op.K, len(st.TargetRecv), len(st.ClientRecv), len(st.NewSocks))
 			for _, r := range st.TargetRecv {
@@ -143,7 +184,8 @@ func menu() []udpx.Op {
 		}
 	}
 	// destinations that must not create an association: private literal, name resolving to a private address
-	m = append(m, udpx.Op{K: "S", C: 0, Key: 0, T: 1, N: 4, Mod: "private"}, udpx.Op{K: "S", C: 1, Key: 1, T: 1, N: 4, Mod: "private-domain"})
+	m = append(m, udpx.Op{K: "S", C: 0, Key: 0, T: 1, N: 4, Mod: "private"}, udpx.Op{K: "S", C: 1, Key: 1, T: 1, N: 4, Mod: "private-domain"},
+		udpx.Op{K: "S", C: 2, Key: 2, T: 1, N: 4, Mod: "cgnat"}, udpx.Op{K: "S", C: 1, Key: 1, T: 1, N: 4, Mod: "cgnat-mapped"}, udpx.Op{K: "S", C: 0, Key: 0, T: 1, N: 4, Mod: "ula"})
 	m = append(m, udpx.Op{K: "A", D: 9 * time.Second}, udpx.Op{K: "A", D: 11 * time.Second})
 	return m
 }
@@ -154,11 +196,20 @@ func raceInputs() []input {
 	open1 := udpx.Op{K: "S", C: 1, Key: 1, T: 1, N: 20}
 	return []input{
 		// a new datagram, a reply and the expiry of the association all at t = T
-		{T, []udpx.Op{open0, {K: "P", Par: []udpx.Op{{K: "S", C: 0, Key: 0, T: 1, N: 12, D: T}, {K: "R", C: 0, T: 1, N: 14, D: T}}}, {K: "S", C: 0, Key: 0, T: 2, N: 6}, {K: "R", C: 0, T: 2, N: 3}}},
+		{Timeout: T, Ops: []udpx.Op{open0, {K: "P", Par: []udpx.Op{{K: "S", C: 0, Key: 0, T: 1, N: 12, D: T}, {K: "R", C: 0, T: 1, N: 14, D: T}}}, {K: "S", C: 0, Key: 0, T: 2, N: 6}, {K: "R", C: 0, T: 2, N: 3}}},
 		// two clients opening at once, replies crossing
-		{T, []udpx.Op{{K: "P", Par: []udpx.Op{{K: "S", C: 0, Key: 0, T: 1, N: 12}, {K: "S", C: 1, Key: 1, T: 1, N: 13}}}, {K: "P", Par: []udpx.Op{{K: "R", C: 0, T: 1, N: 5}, {K: "R", C: 1, T: 1, N: 6}}}}},
+		{Timeout: T, NoExpiry: true, Ops: []udpx.Op{{K: "P", Par: []udpx.Op{{K: "S", C: 0, Key: 0, T: 1, N: 12}, {K: "S", C: 1, Key: 1, T: 1, N: 13}}}, {K: "P", Par: []udpx.Op{{K: "R", C: 0, T: 1, N: 5}, {K: "R", C: 1, T: 1, N: 6}}}}},
 		// client 1 opens while client 0's association expires and a stranger writes to it
-		{T, []udpx.Op{open0, open1, {K: "P", Par: []udpx.Op{{K: "X", C: 0, T: 0, N: 7, D: T}, {K: "S", C: 1, Key: 1, T: 2, N: 9, D: T}, {K: "R", C: 1, T: 1, N: 4, D: T}}}}},
+		{Timeout: T, Ops: []udpx.Op{open0, open1, {K: "P", Par: []udpx.Op{{K: "X", C: 0, T: 0, N: 7, D: T}, {K: "S", C: 1, Key: 1, T: 2, N: 9, D: T}, {K: "R", C: 1, T: 1, N: 4, D: T}}}}},
+		// a service with two UDP listeners (one handler): two clients with live associations send
+		// at the same time, one on each listener
+		{Timeout: T, Listeners: 2, NoExpiry: true, Ops: []udpx.Op{open0, {K: "S", C: 1, Key: 1, T: 1, N: 20, L: 1},
+			{K: "P", Par: []udpx.Op{{K: "S", C: 0, Key: 0, T: 1, N: 12, L: 0}, {K: "S", C: 1, Key: 1, T: 2, N: 13, L: 1}}},
+			{K: "R", C: 0, T: 1, N: 5}, {K: "R", C: 1, T: 2, N: 6}}},
+		// two listeners: an authenticated first datagram on one, an unauthenticated one on the other
+		{Timeout: T, Listeners: 2, NoExpiry: true, Ops: []udpx.Op{
+			{K: "P", Par: []udpx.Op{{K: "S", C: 0, Key: 0, T: 1, N: 12, L: 0}, {K: "S", C: 1, Key: -1, T: 1, N: 13, L: 1}}},
+			{K: "S", C: 0, Key: 0, T: 2, N: 9, L: 0}}},
 	}
 }
 
@@ -187,7 +238,7 @@ func init() {
 				ops[i] = m[c%int64(len(m))]
 				c /= int64(len(m))
 			}
-			in := input{10 * time.Second, ops}
+			in := input{Timeout: 10 * time.Second, Ops: ops}
 			ctx.RunCase("nat-seq", "Q", scenario("nat-seq", in, true), in, nil)
 		}
 		bound := 3
